@@ -16,7 +16,7 @@ ASSUMPTIONS = ['symbols are 1-character strings (sorted_cn_paths concatenates th
                'all readable strings are enumerated when the network has <= 4000 arc combinations, otherwise only the added hypotheses are required to stay readable']
 N = {'quick': 4000, 'thorough': 300000}
 CLASSES = ['random', 'prefix_suffix', 'end_burst', 'start_burst', 'middle_burst', 'with_empty', 'permutations', 'boh', 'boh_lm', 'single', 'wide_scores', 'long_single']
-REQUIRED = ['networks_over_1000_positions', 'peaky_bags', 'wide_score_histories', 'adds_checked', 'old_readable_checked', 'weight_checked', 'paths_checked', 'boh_checked', 'single_checked']
+REQUIRED = ['bags_as_one_shot_iterables', 'default_weight_networks', 'networks_over_1000_positions', 'peaky_bags', 'wide_score_histories', 'adds_checked', 'old_readable_checked', 'weight_checked', 'paths_checked', 'boh_checked', 'single_checked']
 KNOWN_EMPTY = 'empty hypothesis added to an empty network'
 
 
@@ -291,6 +291,21 @@ def check(case, mon, ctx):
             if not readable(norm, h):
                 mon.violation('new-readable', {'hyps': hyps, 'lost': h, 'cn': norm})
         check_paths(raw, mon, ctx, {'hyps': hyps})
+        # the same bag handed over as a one-shot iterable of its hypotheses, and with the weights left at their defaults (visual 1, LM 1 - whatever the bag's own LM scale is)
+        same = lambda a, b: a == b or (len(a) == len(b) and all(set(x) == set(y) and all(close(x[k], y[k]) for k in x) for x, y in zip(a, b)))
+        try:
+            raw_it = cnm.produce_cn_from_boh((h for h in boh), visual_weight=vw, lm_weight=lw, normalize=False)
+            mon.count('bags_as_one_shot_iterables')
+            if not same(raw_it, raw):
+                mon.violation('boh-equals-history', {'hyps': hyps, 'note': 'the bag handed over as a generator of its hypotheses gives another network', 'from_generator': raw_it[:3], 'from_bag': raw[:3]})
+        except Exception as e:
+            mon.violation('boh-equals-history', {'hyps': hyps, 'note': 'a generator of hypotheses is not accepted', 'exception': repr(e)[:200]})
+        dflt = cnm.produce_cn_from_boh(boh, normalize=False)
+        exp_dflt = [math.exp(case['vis'][k] + (case['lm'][k] if case['lm'] else 0.0)) for k in range(len(hyps))]
+        cn_d, _, _ = run_history(hyps, exp_dflt, mon, ctx)
+        mon.count('default_weight_networks')
+        if not same(dflt, cn_d):
+            mon.violation('boh-equals-history', {'hyps': hyps, 'note': 'weights left at their defaults (1, 1); the bag was built with LM scale %r' % lw, 'raw': dflt[:3], 'direct': cn_d[:3]})
         return
     orders = [list(range(len(hyps)))]
     if case['cls'] == 'permutations':
